@@ -276,7 +276,10 @@ def sort_assignments(
                 "Try to save the ODE to an .ode file first and load it again"
             )
             raise exceptions.GotranxError(msg)
-        sorter.add(assignment.name, *assignment.value.dependencies)
+        # Sort the dependencies: they are stored in a frozenset whose iteration
+        # order depends on the hash seed, and the insertion order decides ties
+        # in the topological order (and thereby the state slot layout)
+        sorter.add(assignment.name, *sorted(assignment.value.dependencies))
 
     static_order = tuple(sorter.static_order())
 
